@@ -32,12 +32,15 @@ from .. import valgen
 ALLPOS = {"positive_init_speed": True, "positive_init_density": True, "positive_init_queue": True,
           "positive_next_speed": True, "positive_next_density": True, "positive_next_queue": True}
 P = MODEL_PARAMS[0]
+P_ALT = dict(T=7 / 3600, tau=21 / 3600, eta=52.0, kappa=33.0, delta=0.03, phi=1.2)
 LINK_PARAMS = ("N", "lam", "L", "rho_max", "rho_crit", "v_free", "a", "turnrate")
 
 OPS_A = ([("step", e, j, o) for e in ("numpy", "SX", "MX") for j in (0, 1) for o in (0, 1)]
          + [("feedback", o) for o in (0, 1)] + [("tofun", 0), ("tofun", 2)]
          # value set 2 = no init_conditions at all: the engine creates the symbols itself
-         + [("step", e, 2, o) for e in ("SX", "MX") for o in (0, 1)])
+         + [("step", e, 2, o) for e in ("SX", "MX") for o in (0, 1)]
+         # the same caller values/symbols again, but other model parameters (sampling time, tau, ...)
+         + [("stepP", "numpy", 0), ("stepP", "SX", 0)])
 OPS_B = [("step", "numpy", j, o) for j in (0, 1) for o in (0, 1)] + [("feedback", o) for o in (0, 1)]
 
 
@@ -145,6 +148,17 @@ class Session:
         """Returns ('np', next arrays) / ('cs', values) / None observation."""
         k = op[0]
         net = self.built.net
+        P_save = self.P
+        if k == "stepP":
+            op = ("step", op[1], op[2], 0)
+            k = "step"
+            self.P = {kk: (np.array(float(v)) if self.family == "B" else v) for kk, v in P_ALT.items()}
+        try:
+            return self._apply(op, k, net)
+        finally:
+            self.P = P_save
+
+    def _apply(self, op, k, net):
         if k == "step":
             _, e, j, o = op
             opts = ALLPOS if o else {}
@@ -234,7 +248,7 @@ def run_history(spec, family, hist, st: Stats, order=None):
         if inv:
             problems.append((f"C12/{inv[0]}", f"after operation {i} {op}: {inv[1]}"))
             return problems
-        if obs is not None and op[0] == "step":
+        if obs is not None and op[0] in ("step", "stepP"):
             ref = reference(spec, family, op, order)
             if obs[0] == "np":
                 for kk, v in ref[1].items():
@@ -247,7 +261,9 @@ def run_history(spec, family, hist, st: Stats, order=None):
             else:
                 for a, v in zip(obs[1], ref[1]):
                     st.inc("components_compared", v.size)
-                    if a.shape != v.shape or not np.array_equal(a, v, equal_nan=True):
+                    # two separately compiled functions: equal up to the last bits (CasADi's common-subexpression
+                    # elimination need not order operands identically in two compilations)
+                    if a.shape != v.shape or not np.allclose(a, v, rtol=1e-12, atol=1e-12, equal_nan=True):
                         problems.append((f"C12/not-repeatable/{op[1]}", f"operation {i} {op}: compiled function value {a.tolist()}, "
                                          f"on a fresh network {v.tolist()}"))
                         return problems
@@ -255,7 +271,8 @@ def run_history(spec, family, hist, st: Stats, order=None):
 
 
 OPS_A_CORE = ([("step", "numpy", j, o) for j in (0, 1) for o in (0, 1)] + [("feedback", 0), ("feedback", 1)]
-              + [("step", "SX", 0, 0), ("step", "SX", 2, 0), ("step", "SX", 2, 1), ("step", "MX", 2, 1), ("tofun", 0)])
+              + [("step", "SX", 0, 0), ("step", "SX", 2, 0), ("step", "SX", 2, 1), ("step", "MX", 2, 1), ("tofun", 0),
+                 ("stepP", "SX", 0)])
 
 
 def worker(item):
